@@ -390,7 +390,8 @@ def mixed_stabilizer_equivalency(stab1, stab2):
         else:
             return False
     elif isinstance(stab1, StabilizerTableau) and isinstance(stab2, StabilizerTableau):
-        return stab1 == stab2
+        # two generating sets describe the same state iff their canonical forms coincide
+        return canonical_form(stab1.copy()) == canonical_form(stab2.copy())
     else:
         return False
 
